@@ -7,6 +7,7 @@ import (
 	"encoding/binary"
 	"encoding/hex"
 	"fmt"
+	"math/rand"
 	"os"
 	"os/exec"
 	"reflect"
@@ -14,6 +15,7 @@ import (
 	"runtime/debug"
 	"strconv"
 	"strings"
+	"sync"
 
 	"github.com/cloudwego/frugal"
 	fdebug "github.com/cloudwego/frugal/debug"
@@ -30,6 +32,9 @@ func (c *ctx) resolveAll(shuffle bool) {
 		c.r.Shuffle(len(idx), func(i, j int) { idx[i], idx[j] = idx[j], idx[i] })
 	}
 	for _, i := range idx {
+		if universe.Structs[i].Group == "huge" {
+			continue // 6100 fields: its field table is compared once, by the size stream's own lines
+		}
 		c.h.opResolve(&universe.Structs[i])
 	}
 }
@@ -446,6 +451,63 @@ func (c *ctx) ampProbe() {
 	// no well-formed message of len(in) bytes needs more than len(in) elements of 80 bytes
 	if d > uint64(len(in))*80*8 {
 		c.h.oracle("C05", fmt.Sprintf("nested counts each claiming the rest of the input: decode of %d malformed bytes (%d nested list<struct> headers, count = bytes left) allocated %d bytes = %d x the input", len(in), levels, d, d/uint64(len(in))))
+	}
+}
+
+type argErrStorm struct {
+	L []int32          `frugal:"1,default,list<i32>"`
+	S []string         `frugal:"2,default,set<string>"`
+	M map[int32]string `frugal:"3,default,map<i32:string>"`
+}
+
+// errorPathStorm (C08): the decoder's error paths under concurrency.  Messages whose list / set element code
+// or map key / value code is each byte value that is not the declared one, decoded by several goroutines
+// released together, each in its own order: every one must be rejected, and under the race detector nothing
+// may be written to shared state while another goroutine reads it (P1 cached the name of an unknown code in
+// a package-level table from inside DecodeObject).
+func (c *ctx) errorPathStorm(workers int) {
+	var msgs [][]byte
+	for code := 0; code < 256; code++ {
+		b := byte(code)
+		if b != tI32 {
+			msgs = append(msgs, []byte{tLIST, 0, 1, b, 0, 0, 0, 1, 0, 0, 0, 7, 0})
+			msgs = append(msgs, []byte{tMAP, 0, 3, b, tSTRING, 0, 0, 0, 1, 0, 0, 0, 7, 0, 0, 0, 1, 'x', 0})
+		}
+		if b != tSTRING {
+			msgs = append(msgs, []byte{tSET, 0, 2, b, 0, 0, 0, 1, 0, 0, 0, 1, 'x', 0})
+			msgs = append(msgs, []byte{tMAP, 0, 3, tI32, b, 0, 0, 0, 1, 0, 0, 0, 7, 0, 0, 0, 1, 'x', 0})
+		}
+	}
+	var wg sync.WaitGroup
+	start := make(chan struct{})
+	bad := make([]string, workers)
+	for w := 0; w < workers; w++ {
+		w := w
+		order := rand.New(rand.NewSource(c.r.Int63())).Perm(len(msgs))
+		wg.Add(1)
+		go func() {
+			defer wg.Done()
+			<-start
+			for _, i := range order {
+				res := safely(func() string {
+					if _, err := frugal.DecodeObject(msgs[i], &argErrStorm{}); err != nil {
+						return "err"
+					}
+					return "ok"
+				})
+				if res != "err" && bad[w] == "" {
+					bad[w] = fmt.Sprintf("%s in=%x", res, msgs[i])
+				}
+			}
+		}()
+	}
+	close(start)
+	wg.Wait()
+	c.h.stats["errstorm"] += workers * len(msgs)
+	for _, b := range bad {
+		if b != "" {
+			c.h.oracle("C08", "errorPathStorm: a container with a mismatching element / key / value code was not rejected: "+b)
+		}
 	}
 }
 
